@@ -291,6 +291,13 @@ func (ex *Exec) runPath(st *State) {
 	defer func() {
 		if r := recover(); r != nil {
 			if pe, ok := r.(pathEnd); ok {
+				if pe.reason == "done" && !ex.cfg.Concrete {
+					// a complete path: its model is a full replay vector (witness for vacuity / translation validation)
+					func() {
+						defer func() { recover() }()
+						ex.witness(st, "path-end")
+					}()
+				}
 				if len(ex.res.Samples) < 3 && pe.reason == "done" && len(st.pc) > 0 {
 					var cs []string
 					for i, c := range st.pc {
